@@ -836,11 +836,18 @@ def glue_trio() -> None:
         return type(trio.open_nursery())
 
     try:
-        trio.current_time()
-    except RuntimeError:
-        nursery_manager_type = trio.run(get_nursery_type)
-    else:
-        nursery_manager_type = type(trio.open_nursery())
+        # With the strictness given explicitly, recent Trio versions can
+        # create a nursery manager without consulting the current run, so
+        # this works outside Trio too and we needn't start a hidden run
+        # (which would e.g. fight over the main thread's signal wakeup fd).
+        nursery_manager_type = type(trio.open_nursery(strict_exception_groups=True))
+    except Exception:
+        try:
+            trio.current_time()
+        except RuntimeError:
+            nursery_manager_type = trio.run(get_nursery_type)
+        else:
+            nursery_manager_type = type(trio.open_nursery())
 
     @elaborate_context.register(nursery_manager_type)
     def elaborate_nursery(manager: Any, context: Context) -> None:
